@@ -113,11 +113,13 @@ def raw_value(inp, cell, field):
     raise ValueError(field)
 
 
-def obs_value(ds, t, l, s):
-    """The shared observation: missing if any input that has obs lacks it. (value, ok)."""
+def obs_value(ds, t, l, s, k=None):
+    """The observation used for input k: its own file's if that file has observations, otherwise the first obs-bearing
+    file's; missing if any input that has obs lacks it."""
     val = None
+    own = None
     found = False
-    for inp in all_inputs(ds):
+    for j, inp in enumerate(all_inputs(ds)):
         if "obs" not in inp["has"]:
             continue
         found = True
@@ -126,9 +128,11 @@ def obs_value(ds, t, l, s):
         if v is None:
             return None
         val = v if val is None else val
+        if j == k:
+            own = v
     if not found:
         raise KeyError("obs")
-    return val
+    return val if own is None else own
 
 
 def case_values(ds, k, fields, t, l, s, opts=None, own_obs=True):
@@ -156,7 +160,7 @@ def case_values(ds, k, fields, t, l, s, opts=None, own_obs=True):
         if f0[0] == "fcst" and opts.get("fcst_field") is not None:
             f = tuple(opts["fcst_field"])
         if f[0] == "obs":
-            v = obs_value(ds, t, l, s)
+            v = obs_value(ds, t, l, s, k)
             if v is None:
                 return None
         else:
